@@ -176,3 +176,43 @@ func VH_C03(si, n, B int) {
 	vAssert(vRowsEqDeep(rn.rows, rb.rows), "C03/row-and-batch-results-differ")
 	vCover("modes-compared")
 }
+
+// Aggregated statements over more groups than the batch size, with LIMIT handled inside the
+// aggregate plan (no ORDER BY) and behind an order plan: both modes must agree.
+var vC03AggStmts = []string{
+	"select value, count(1) where key >= '' group by value limit 3",
+	"select value, count(1) where key >= '' group by value limit 1, 3",
+	"select value, count(1), max(key) where key >= '' group by value limit 2, 2",
+	"select value, count(1) where key >= '' group by value",
+	"select value, group_concat(key, ',') where key >= '' group by value order by value desc limit 3",
+	"select value, strlen(key) as l, count(1) where key >= '' group by value, l limit 4",
+	"select count(1), min(value), max(value) where key >= '' limit 1",
+	"select value, sum(strlen(key)), avg(strlen(value)) where key ^= 'a' group by value limit 5",
+}
+
+func VN_C03_AGG(tier int) int { return len(vC03AggStmts) }
+
+func VH_C03_AGG(si, n, B int) {
+	q := vC03AggStmts[si]
+	keys := make([][]byte, n)
+	vals := make([][]byte, n)
+	for i := 0; i < n; i++ {
+		keys[i] = []byte{'a', byte('0' + i)}
+		vals[i] = vNondetBytes("v"+vItoa(i), 1, 1, "abcde"[:n])
+	}
+	st := vNewStoreFrom(keys, vals)
+	PlanBatchSize = B
+	pb, err := NewOptimizer(q).BuildPlan(st.clone())
+	vAssert(err == nil, "harness/C03-AGG-rejected")
+	rb := vDrainBatch(pb, n+1)
+	pn, err := NewOptimizer(q).BuildPlan(st.clone())
+	vAssert(err == nil, "C03/second-build-rejected")
+	rn := vDrainNext(pn, n+1)
+	if rb.err != nil {
+		vCover("batch-error")
+		return
+	}
+	vAssert(rn.err == nil, "C03/row-mode-fails-where-batch-mode-completes")
+	vAssert(vRowsEqDeep(rn.rows, rb.rows), "C03/row-and-batch-results-differ")
+	vCover("modes-compared")
+}
